@@ -27,16 +27,23 @@ pub fn run(thorough: bool, seed: u64) {
     assert_send_sync::<Predictor>();
     let mut r = Rng::new(seed ^ 0x7412EAD5);
     let opts = GenOpts { windows: &[1, 2, 3, 4, 9], max_ngrams: 6, max_words: 4, max_word_len: 5 };
-    let rounds = if thorough { 40 } else { 6 };
+    let rounds = if thorough { 60 } else { 9 };
     let n_threads = 16;
     let mut total = 0usize;
     let mut fails = 0usize;
     for round in 0..rounds {
         let (mut m, alpha) = gen_model(&mut r, &opts);
-        gen_tag_models(&mut r, &mut m, &alpha, 4);
-        let spec = format!("{}^11", m.to_text());
+        // every scorer variant: with tag models (tag-aware scorers), without (plain / cached scorers), tags switched off
+        let mode = round % 3;
+        if mode != 1 {
+            gen_tag_models(&mut r, &mut m, &alpha, 4);
+        }
+        let spec = format!("{}^{}", m.to_text(), if mode == 2 { "00" } else { "11" });
+        // the sequential reference uses its own predictor: the shared one sees its very first use from all threads at once
+        let Ok(p_seq) = build_pred(&spec).1 else { continue };
         let Ok(p) = build_pred(&spec).1 else { continue };
         let p = Arc::new(p);
+        let barrier = Arc::new(std::sync::Barrier::new(n_threads));
         let texts: Vec<String> = (0..(if thorough { 400 } else { 150 })).map(|_| gen_text_tags(&mut r, &m, &alpha, 24)).collect();
         let texts = Arc::new(texts);
         // sequential reference on fresh sentences
@@ -44,20 +51,21 @@ pub fn run(thorough: bool, seed: u64) {
             .iter()
             .map(|t| {
                 let mut s = Sentence::default();
-                one(&p, &mut s, t, true)
+                one(&p_seq, &mut s, t, mode != 2)
             })
             .collect();
         let expected = Arc::new(expected);
         let mut handles = vec![];
         for t in 0..n_threads {
-            let (p, texts, expected) = (p.clone(), texts.clone(), expected.clone());
+            let (p, texts, expected, barrier) = (p.clone(), texts.clone(), expected.clone(), barrier.clone());
             handles.push(std::thread::spawn(move || {
+                barrier.wait();
                 let mut bad = vec![];
                 let mut s = Sentence::default();
                 let n = texts.len();
                 for k in 0..n {
                     let i = (k * (2 * t + 1) + t) % n; // a different order in every thread
-                    let got = one(&p, &mut s, &texts[i], true);
+                    let got = one(&p, &mut s, &texts[i], mode != 2);
                     if got != expected[i] {
                         bad.push((i, got));
                     }
